@@ -29,7 +29,7 @@ RULE = ("scenario = one conversation (initialize + 1..5 list/call/read/get/ping/
         "several classes, 0..3 notifications before each response, string and integer ids) run over every carrier able to express it, with "
         "per-carrier nuisance (latency, chunking); non-trivial = at least two carriers ran and the conversation has a notification, an error "
         "reply, an integer id or non-ASCII payload")
-PROBES = ["through_mcpclient", "slow_notification_transit_on_http", "over_100_notifications_in_session", "sse_event_before_202", "notifications_before_response", "error_reply", "int_id", "non_ascii_payload", "four_carriers", "nested_nulls"]
+PROBES = ["http_sse_untyped_events_after_keepalive", "through_mcpclient", "slow_notification_transit_on_http", "over_100_notifications_in_session", "sse_event_before_202", "notifications_before_response", "error_reply", "int_id", "non_ascii_payload", "four_carriers", "nested_nulls"]
 TIERS = {"quick": {"runs": 3000, "wall": 45.0}, "thorough": {"runs": 80000, "wall": 560.0}}
 ASSUMPTIONS = ["fault-free by construction: only latency and chunking vary between carriers",
                "JSON-body HTTP runs only conversations without interleaved notifications (a single JSON object cannot express them)",
@@ -55,7 +55,7 @@ def generate(rng: random.Random, tier: str) -> dict:
     return {"v": 1, "uuid_seed": rng.getrandbits(40), "exchanges": ex, "init": True if api == "mcpclient" else rng.random() < 0.8, "client_api": api,
             "nuisance": {"lat": rng.choice([0, 1, 20]), "chunk": rng.choice([None, 1, 5, 64]), "sse_chunk": rng.choice([None, 3, 16]),
                          "sse_post_lat": rng.choice([1, 1, 30, 200]), "sse_event_first": rng.random() < 0.4,
-                         "notif_transit": rng.choice([0, 0, 40, 300])}}
+                         "notif_transit": rng.choice([0, 0, 40, 300]), "sse_style": rng.choice([None, None, "untyped"])}}
 
 
 def simplify(scn):
@@ -64,8 +64,8 @@ def simplify(scn):
     if scn["init"] and scn.get("client_api") != "mcpclient":
         c = copy.deepcopy(scn); c["init"] = False; yield c
     n = scn["nuisance"]
-    if n["lat"] or n["chunk"] or n["sse_chunk"] or n.get("sse_event_first") or n.get("notif_transit"):
-        c = copy.deepcopy(scn); c["nuisance"] = {"lat": 0, "chunk": None, "sse_chunk": None, "sse_post_lat": 1, "sse_event_first": False, "notif_transit": 0}; yield c
+    if n["lat"] or n["chunk"] or n["sse_chunk"] or n.get("sse_event_first") or n.get("notif_transit") or n.get("sse_style"):
+        c = copy.deepcopy(scn); c["nuisance"] = {"lat": 0, "chunk": None, "sse_chunk": None, "sse_post_lat": 1, "sse_event_first": False, "notif_transit": 0, "sse_style": None}; yield c
     for i, e in enumerate(scn["exchanges"]):
         for key, val in (("notifs", 0), ("nulls", False), ("text", "plain"), ("data", None)):
             if e.get(key) != val:
@@ -289,7 +289,11 @@ def _run_stdio(scn):
     return main, st
 
 
-def _sse_body(msgs, chunk=None):
+def _sse_body(msgs, style=None):
+    """style: None = every message typed 'event: message'; 'untyped' = default-typed events behind a data-less 'event: ping' keep-alive
+    and comment lines (all legal framing that carries no message)"""
+    if style == "untyped":
+        return (": keep-alive\n\nevent: ping\n\n" + "".join(f"data: {json.dumps(m, ensure_ascii=False)}\n\n: c\n\n" for m in msgs)).encode()
     return "".join(f"event: message\ndata: {json.dumps(m, ensure_ascii=False)}\n\n" for m in msgs).encode()
 
 
@@ -306,7 +310,7 @@ def _run_http(scn, sse_bodies: bool):
             if not msgs:
                 return {"latency": ticks(n["lat"]), "status": 202, "chunks": [(0, b"")]}
             if sse_bodies:
-                raw = _sse_body(msgs)
+                raw = _sse_body(msgs, n.get("sse_style"))
                 ct = "text/event-stream"
             else:
                 raw = json.dumps(msgs[0], ensure_ascii=False).encode()
@@ -494,6 +498,8 @@ def execute(scn: dict) -> dict:
         probe("four_carriers")
     if scn.get("client_api") == "mcpclient":
         probe("through_mcpclient")
+    if scn["nuisance"].get("sse_style") == "untyped":
+        probe("http_sse_untyped_events_after_keepalive")
     if scn["nuisance"].get("sse_event_first") and scn["nuisance"].get("sse_post_lat", 1) > 1:
         probe("sse_event_before_202")
     out["nontrivial"] = len(results) >= 2 and any(out["probes"].get(p) for p in ("notifications_before_response", "error_reply", "int_id", "non_ascii_payload"))
